@@ -30,8 +30,8 @@ from harness.props import c03 as L
 
 META = {
     "id": "C11",
-    "technique": "Coq proof (interpreter-stack model of the two stages parse() -> emit() over program trees, constants per block slot / header / simple statement measured on the current source: emit needs no more frames than parse on every tree whenever its constants are dominated - re-checked against the regenerated constants -, necessity: one frame more per level in any slot crashes on an accepted ladder; model of the function-variant memo in front of _parse_function with the sequence of body parses as its cost: looked up through the alias table no (function, call signature) is parsed twice, for every call graph - at most defs + distinct call signatures body parses; looked up by the raw signature a promoted helper is parsed again at every call, fan-out ^ depth on helper chains; regenerated inventory of every regular expression of the transpiler, lowered from CPython's own parse: flat => polynomially many backtracking paths on every text, nested quantifier => exponentially many; process model of folded list objects across parse() calls: stateless without a module-level memo, refuted with one, inventory of module-level state shows none; effect-instrumented model of _eval_const: whitelist of primitives by induction over expressions, reject-before-evaluate for unsupported nodes, exception kinds at the call sites, size bound of folded integers per operator and per expression) + extracted-model correspondence (result and primitive trace vs the real _eval_const under recording wrappers) + regex model vs re.fullmatch, session model vs firmware text + pump strings derived from every repeat of every pattern in every line / argument position, generic long runs, scale families by doubling (promptness relative to the stream's median, confirmed in a new process, growth series in the replay), sessions of scripts sharing literal texts vs the same script alone + variant model vs the recorded sequence of real _parse_function invocations on generated scripts of defs and calls, and the parsed-once statement evaluated on that sequence; depth families of helpers calling each other (37 families: promoted / unpromoted / annotated parameters, fan-out 1-3, several signatures and parameters, calls in conditions / loops / try / arguments / f-strings / the main loop, recursion, rings, forward calls, redefinition, lattices, nested blocks inside re-parsed bodies) measured by doubling the depth against a baseline-relative budget + audit-hook / canary / exception-kind observation of the real parse()+emit() on hostile scripts, real Python sources and noise (support only)",
-    "level_text": "Stack: C11_emit_stack_within_parse_stack / C11_accepted_nesting_is_emitted (every pair of constant tables, every program tree, every room), C11_emit_frames_dominated_current_source (obligation over Gen/NestDepth.v, measured from the real stages on every run), C11_nesting_never_crashes_emit_partial (guard: none of the four statements of F-C11-emit-stack-window), C11_nesting_never_crashes_emit_refuted, C11_extra_frame_per_level_opens_window (necessity). Theorems C11_* (coq/Props/C11.v) are proved for all expressions and environments about the Gallina model of _eval_const and its call sites (cast / operator tables regenerated from parser.py on every run): whitelist of primitive operations, no evaluation below an unsupported node, error kinds, size of the folded integers (at most max(_MAX_CONST_BITS, widest operand + 1) bits per operator application, linear in the input for whole arithmetic expressions; 2**2**n is refused beyond the bound) and a linear number of operations; C11_regex_table_flat / _polynomial: every regular expression of the current source (Gen/Regexes.v, regenerated) is flat, hence has at most (length + 2)^size backtracking paths on every text, while the nested-quantifier shape has at least 2^n (C11_nested_quantifier_exponential, C11_port_fragment_exponential); C11_fold_session_stateless(_current_source), C11_parse_leaves_module_store, C11_fold_memo_refuted, C11_no_mutated_module_state: folded list objects cannot leak from one parse() to the next because no module-level object is mutated or handed out (Gen/SetSites.v). C11_variant_parsed_once / _parses_bounded / _parsed_only_when_called: for every script of defs and calls (Lang/VariantCost.v: return sums of parameters, literals and calls; recursion, forward calls, promotion of parameters to String) _ensure_function_variant parses no (function, call signature) twice, so the def / call machinery performs at most defs + distinct call signatures body parses; C11_variant_raw_lookup_refuted: not so when the fast path ignores the alias table. Open finding F-C11-blank-run-cubic: flat is polynomial, not linear - three adjacent blank-accepting runs make long white-space runs cubic. The clause about the Python process (no file, process, network or environment access; only ValueError/SyntaxError; termination) for arbitrary texts is outside the technique: it is observed with sys.addaudithook, canary files, exception kinds and a 30 s limit on generated hostile scripts, and labelled as support.",
+    "technique": "Coq proof (interpreter-stack model of the two stages parse() -> emit() over program trees, constants per block slot / header / simple statement measured on the current source: the guard of emit() - its own RecursionError / MemoryError reported as ValueError, like parse() - observed on the real emit() by the translator: with the guard the pipeline never ends in an internal error, for every pair of constant tables, every program tree and every room; the outcome characterised case by case (firmware / clean rejection by parse / by emit), the guard changes only the kind of the failure; emit needs no more frames than parse on every tree whenever its constants are dominated, so everything parse() accepts is emitted; necessity of the guard: one frame more per level in any slot fails on an accepted ladder - with an internal error when unguarded; model of the function-variant memo in front of _parse_function with the sequence of body parses as its cost: looked up through the alias table no (function, call signature) is parsed twice, for every call graph - at most defs + distinct call signatures body parses; looked up by the raw signature a promoted helper is parsed again at every call, fan-out ^ depth on helper chains; regenerated inventory of every regular expression of the transpiler, lowered from CPython's own parse: flat => polynomially many backtracking paths on every text, nested quantifier => exponentially many; process model of folded list objects across parse() calls: stateless without a module-level memo, refuted with one, inventory of module-level state shows none; effect-instrumented model of _eval_const: whitelist of primitives by induction over expressions, reject-before-evaluate for unsupported nodes, exception kinds at the call sites, size bound of folded integers per operator and per expression) + extracted-model correspondence (result and primitive trace vs the real _eval_const under recording wrappers) + regex model vs re.fullmatch, session model vs firmware text + pump strings derived from every repeat of every pattern in every line / argument position, generic long runs, scale families by doubling (promptness relative to the stream's median, confirmed in a new process, growth series in the replay), sessions of scripts sharing literal texts vs the same script alone + variant model vs the recorded sequence of real _parse_function invocations on generated scripts of defs and calls, and the parsed-once statement evaluated on that sequence; depth families of helpers calling each other (37 families: promoted / unpromoted / annotated parameters, fan-out 1-3, several signatures and parameters, calls in conditions / loops / try / arguments / f-strings / the main loop, recursion, rings, forward calls, redefinition, lattices, nested blocks inside re-parsed bodies) measured by doubling the depth against a baseline-relative budget + audit-hook / canary / exception-kind observation of the real parse()+emit() on hostile scripts, real Python sources and noise (support only)",
+    "level_text": "Stack: C11_nesting_never_crashes_emit (current source: every room, EVERY program tree - replaces C11_nesting_never_crashes_emit_refuted / _partial after the repair of F-C11-emit-stack-window), C11_emit_is_guarded_current_source (obligation over Gen/NestDepth.v: the guard observed on the real emit() on every run), C11_guarded_emit_never_crashes / C11_pipeline_outcome_characterised / C11_stack_crash_iff_unguarded_window / C11_guard_only_changes_the_kind (every pair of constant tables, every program tree, every room), C11_former_window_is_clean_rejection, C11_emit_stack_within_parse_stack / C11_accepted_nesting_is_emitted (which depths still yield firmware; dominance of the measured tables is a hypothesis, reported in the distribution), C11_extra_frame_per_level_opens_window (necessity of the guard). Theorems C11_* (coq/Props/C11.v) are proved for all expressions and environments about the Gallina model of _eval_const and its call sites (cast / operator tables regenerated from parser.py on every run): whitelist of primitive operations, no evaluation below an unsupported node, error kinds, size of the folded integers (at most max(_MAX_CONST_BITS, widest operand + 1) bits per operator application, linear in the input for whole arithmetic expressions; 2**2**n is refused beyond the bound) and a linear number of operations; C11_regex_table_flat / _polynomial: every regular expression of the current source (Gen/Regexes.v, regenerated) is flat, hence has at most (length + 2)^size backtracking paths on every text, while the nested-quantifier shape has at least 2^n (C11_nested_quantifier_exponential, C11_port_fragment_exponential); C11_fold_session_stateless(_current_source), C11_parse_leaves_module_store, C11_fold_memo_refuted, C11_no_mutated_module_state: folded list objects cannot leak from one parse() to the next because no module-level object is mutated or handed out (Gen/SetSites.v). C11_variant_parsed_once / _parses_bounded / _parsed_only_when_called: for every script of defs and calls (Lang/VariantCost.v: return sums of parameters, literals and calls; recursion, forward calls, promotion of parameters to String) _ensure_function_variant parses no (function, call signature) twice, so the def / call machinery performs at most defs + distinct call signatures body parses; C11_variant_raw_lookup_refuted: not so when the fast path ignores the alias table. Open finding F-C11-blank-run-cubic: flat is polynomial, not linear - three adjacent blank-accepting runs make long white-space runs cubic. The clause about the Python process (no file, process, network or environment access; only ValueError/SyntaxError; termination) for arbitrary texts is outside the technique: it is observed with sys.addaudithook, canary files, exception kinds and a 30 s limit on generated hostile scripts, and labelled as support.",
     "level_note": "Trusted: Coq kernel, translator harness/gen/safecasts.py, extraction, OCaml driver; for the observed part CPython's audit events (open, exec, import, os.*, subprocess.*, socket.*) as the definition of 'access'. The theorems are about the model; the correspondence bounds its distance from parser.py.",
     "design_ref": "DESIGN.md section 4 C11",
 }
@@ -315,6 +315,9 @@ def replay_fixed(ctx, stats):
             ctx.fail("the repaired defect F-C11-exponent-blowup is back: _eval_const('2**2**n', {}) for n = 12, 16, 20 is folded (bit lengths of the results) instead of refused",
                      {"kind": "fixed-witness", "finding": "F-C11-exponent-blowup", "expr": "2**2**n", "n": [12, 16, 20], "env": {}},
                      "ValueError (constant too large to fold)", r, key="fixed:F-C11-exponent-blowup:eval")
+    if "F-C11-emit-stack-window" in fixed:
+        if D.replay_fixed(ctx, stats, ctx.tier == "thorough", fixed["F-C11-emit-stack-window"]):
+            back.add("F-C11-emit-stack-window")
     return back
 
 
@@ -508,6 +511,7 @@ def run(ctx: C.Ctx):
 
     depth_thread.join()
     stats.update(depth_stats)
+    D.tables_summary(ctx, stats)
     if "err" in depth_box:
         ctx.disagree("the stack-depth stream (harness/c11_depth.py) could not be run", depth_box["err"][:600], None, None)
 
@@ -560,28 +564,23 @@ def run(ctx: C.Ctx):
             if t1600 > 200 * max(t10, 0.001) and t1600 > 0.5 and t1600 > 24 * max(t400, 0.001):
                 ctx.known(f"F-C11-blank-run-cubic: `led3 = Led(<n blanks>)!` is transpiled in {t400} s, {t800} s, {t1600} s for n = 400, 800, 1600 (x{round(t1600 / max(t800, 1e-3), 1)} per doubling: cubic; {t10} s for 10 blanks)")
             continue
-        if f.get("id") == "F-C11-emit-stack-window":
-            line = D.replay_known(ctx, stats, thorough)
-            if line:
-                ctx.known(line)
-            continue
         ctx.disagree("known_findings lists an open finding this check has no replay for", f.get("id"), None, None)
     shutil.rmtree(cdir, ignore_errors=True)
 
     ctx.coverage.update({
         "evaluations": len(cases) + len(scripts) + n_extra,
         "distinct_nontrivial": len(distinct),
-        "rule": "2b (stack over parse() -> emit(); proof tie + oracle): (a) 36 (120) seeded random program trees 6-18 blocks deep over 9 block slots (if / elif / else / while / for / try / except bodies, main loop, function body; 1-3 statements per body) and 61 simple statements, 12 (40) ladders of random slot patterns with side statements, and every simple statement at the bottom of a ladder - the deepest interpreter frame of the real parse() / emit() (sys.setprofile, a process without audit hook) against need_prog of Lang/NestDepth.v with the regenerated constants, then the outcome of the real pipeline with exactly `room` frames left (room = parse's need, one less, three more; sys.setrecursionlimit relative to the calling frame) against the model's pipeline; (b) 206 (250) ladder families - every slot alone around 4 statements, main loop / function body over every slot, every simple statement under an if-ladder and under a two-slot mixture, all ordered pairs of slots, random 2-5-slot patterns with 1-4 side statements per level - each with 36 (and 61) frames of room: the deepest depth parse() accepts is found by bisection (+ look-ahead for non-monotone acceptance), emit() must succeed there and on the two ladders below, every rejection must be ValueError; a failing family is carried to the default limit (shallowest failing depth with 48 and 72 frames, extrapolated to 999 = emit(parse(text)) at module level, run once) and that script is the replay; (c) expressions nested 1-45 deep (6 shapes) in 10 statement / header positions inside 26 and 38 nested blocks with 60 frames of room: both stages may only fail with ValueError; (d) ladders of 21 block headers outside the supported subset or in other spellings (with / class / nested and async def / match / for over lists and tuples / range with step / inner while True / walrus / while-else / for-else / try-finally / try-else / except-as / elif chains / multi-line and commented headers / lambda bodies) and of tab / two-blank indentation, at 19 depths around the acceptance boundary with 40 frames of room: both stages may only end cleanly. Non-trivial here = every tree / ladder at least 6 blocks deep. 0: the witnesses of the repaired findings. 1 (proof tie): the C03 expression stream (boundary expressions x environments incl. the values around the size bound + seeded random expressions) plus hostile expression forms, plus towers / giant shifts / wide products and seeded random integer expressions with exponents and shift counts around and beyond the size bound (size oracle max(bound, widest leaf) + nodes on every call-free result), each through the extracted instrumented model (result, primitive trace) and the real _eval_const under recording wrappers (operator module alias, _SAFE_CASTS values, max/min/abs in the parser's namespace) with sys.setprofile / sys.addaudithook; non-trivial = distinct (expression, environment) on which the real evaluator performed at least one primitive operation. 2 (observed, support): hostile expression forms (file / process / import / eval / attribute / lambda / comprehension / walrus / f-string payloads writing a canary file) in every argument position of the property's quantifier (pins, delays, conditions, loop bounds, list items, f-strings, decorators, defaults, device constructor keywords, expression statements), generated expressions in the same positions, real Python sources (the project's own files and standard-library modules), byte noise / shuffled / truncated / corrupted scripts, plus the formerly excluded regions (infinity / NaN / beyond-float-range values x every position incl. all int()/float() resolver sites, towers-shifts-products x positions, multi-line squaring chains, expressions 150..20000 levels deep x positions) - each through the real parse()+emit() with audit hook, canary check, exception kind and a 30 s limit; non-trivial = distinct hostile script that was accepted (firmware produced) - the ones where evaluating the payload would have been possible. 3 (promptness): the regenerated regex inventory - (a) model vs re.fullmatch on the minimal text of each pattern, its pumps and seeded edits of them; (b) pump scripts: for every unbounded repeat of every pattern x up to three feeds (characters of its set / the group's text / the inner set of a nested repeat) x continuations (the rest of the pattern, cut after the run, + one of ! ( [0] ' + 1' \\x01) at 28 characters (every place a line can stand: top level, while / if / else / for / def / try bodies, right-hand side; argument positions incl. quoted pin strings for the patterns applied to arguments) and at 1200 (quick) / 400, 1500, 6000 (thorough) characters, white-space runs cut to the guard; (c) 28 run alphabets x 41 statement frames (target(<run>()), h = target(<run>[0]), names, conditions, decorators, imports, except clauses ...) at 40 and 1500 characters; (d) 23 scale families (many lines / long lines / CRLF) at 250 .. 2000 (8000) by doubling. A script is slow when it needs more than max(5 s, 200 x the median of its stream) twice, the second time alone in a new process; the replay carries the series over growing runs. (e) pieces that refer to each other: 36 fixed helper chains + seeded random scripts of 1..7 defs (return sums of parameters, literals of the four type labels and calls of earlier / later / the same function with parameters or literals as arguments, arity 1..3) with top-level calls between and after the defs, through Lang/VariantCost.v (extracted) and the real parser under a wrapper around _parse_function: the ordered sequence (function, forced signature) must be equal, and no pair may occur twice; 37 depth families of helpers calling each other (see technique) at depth 3, 6, 12, 24 (thorough: .. 96): a family is not prompt when the time more than quintuples over each of the last two doublings AND exceeds 200 x (its own time at depth 3, at most the median family, at least 5 ms) x depth / 3, twice (the second time alone in a new process); the replay carries the series with the body-parse and block-parse counts. 4 (state): sessions - per literal text (lists with duplicates, nested, computed, tuples, strings, numbers) reader scripts (len, flash_pattern, glyph, index, loop bound, f-string) and mutator scripts (append / remove / += / item store / rebinding / aliases / inside if-while-for-def, under another variable name), transpiled in ONE process as readers, mutators, readers, shuffled mutators, mutators again, readers - every output must equal the script's output alone in a new process (sha256 / exception kind); on a difference every earlier script is tried as single predecessor: the replay is the two-script session; module-level objects of the three modules are digested before / after every parse (a change breaks the tie of Lang/FoldSession.v); random sessions of the model fragment through the extracted model vs the folded values read off the firmware.",
+        "rule": "2b (stack over parse() -> emit(); proof tie + oracle): (a) 36 (120) seeded random program trees 6-18 blocks deep over 9 block slots (if / elif / else / while / for / try / except bodies, main loop, function body; 1-3 statements per body) and 61 simple statements, 12 (40) ladders of random slot patterns with side statements, and every simple statement at the bottom of a ladder - the deepest interpreter frame of the real parse() / emit() (sys.setprofile, a process without audit hook) against need_prog of Lang/NestDepth.v with the regenerated constants, then the outcome of the real pipeline (firmware / clean ValueError from parse / internal error in emit / clean ValueError from emit) with exactly `room` frames left (room = parse's need, one less, three more, emit's need, one less; sys.setrecursionlimit relative to the calling frame) against the model's pipeline; (b) 252 (327) ladder families - every slot alone around 4 statements, main loop / function body over every slot, every simple statement under an if-ladder and under a two-slot mixture, all ordered pairs of slots, random 2-5-slot patterns with 1-4 side statements per level, every slot around each of the four statements of the repaired finding F-C11-emit-stack-window - each with 36 (and 61) frames of room: the deepest depth parse() accepts is found by bisection (+ look-ahead for non-monotone acceptance), emit() must end in firmware or ValueError there and on the two ladders below, every rejection must be ValueError; a failing family is carried to the default limit (shallowest failing depth with 48 and 72 frames, extrapolated to 999 = emit(parse(text)) at module level, run once) and that script is the replay; (c) expressions nested 1-45 deep (6 shapes) in 10 statement / header positions inside 26 and 38 nested blocks with 60 frames of room: both stages may only fail with ValueError; (d) ladders of 21 block headers outside the supported subset or in other spellings (with / class / nested and async def / match / for over lists and tuples / range with step / inner while True / walrus / while-else / for-else / try-finally / try-else / except-as / elif chains / multi-line and commented headers / lambda bodies) and of tab / two-blank indentation, at 19 depths around the acceptance boundary with 40 frames of room: both stages may only end cleanly. Non-trivial here = every tree / ladder at least 6 blocks deep. 0: the witnesses of the repaired findings (for F-C11-emit-stack-window: the deepest if-ladder around rgb.off() parse() accepts with 80 frames left, and the two below; thorough: the 994- and 993-level scripts under the default recursion limit). 1 (proof tie): the C03 expression stream (boundary expressions x environments incl. the values around the size bound + seeded random expressions) plus hostile expression forms, plus towers / giant shifts / wide products and seeded random integer expressions with exponents and shift counts around and beyond the size bound (size oracle max(bound, widest leaf) + nodes on every call-free result), each through the extracted instrumented model (result, primitive trace) and the real _eval_const under recording wrappers (operator module alias, _SAFE_CASTS values, max/min/abs in the parser's namespace) with sys.setprofile / sys.addaudithook; non-trivial = distinct (expression, environment) on which the real evaluator performed at least one primitive operation. 2 (observed, support): hostile expression forms (file / process / import / eval / attribute / lambda / comprehension / walrus / f-string payloads writing a canary file) in every argument position of the property's quantifier (pins, delays, conditions, loop bounds, list items, f-strings, decorators, defaults, device constructor keywords, expression statements), generated expressions in the same positions, real Python sources (the project's own files and standard-library modules), byte noise / shuffled / truncated / corrupted scripts, plus the formerly excluded regions (infinity / NaN / beyond-float-range values x every position incl. all int()/float() resolver sites, towers-shifts-products x positions, multi-line squaring chains, expressions 150..20000 levels deep x positions) - each through the real parse()+emit() with audit hook, canary check, exception kind and a 30 s limit; non-trivial = distinct hostile script that was accepted (firmware produced) - the ones where evaluating the payload would have been possible. 3 (promptness): the regenerated regex inventory - (a) model vs re.fullmatch on the minimal text of each pattern, its pumps and seeded edits of them; (b) pump scripts: for every unbounded repeat of every pattern x up to three feeds (characters of its set / the group's text / the inner set of a nested repeat) x continuations (the rest of the pattern, cut after the run, + one of ! ( [0] ' + 1' \\x01) at 28 characters (every place a line can stand: top level, while / if / else / for / def / try bodies, right-hand side; argument positions incl. quoted pin strings for the patterns applied to arguments) and at 1200 (quick) / 400, 1500, 6000 (thorough) characters, white-space runs cut to the guard; (c) 28 run alphabets x 41 statement frames (target(<run>()), h = target(<run>[0]), names, conditions, decorators, imports, except clauses ...) at 40 and 1500 characters; (d) 23 scale families (many lines / long lines / CRLF) at 250 .. 2000 (8000) by doubling. A script is slow when it needs more than max(5 s, 200 x the median of its stream) twice, the second time alone in a new process; the replay carries the series over growing runs. (e) pieces that refer to each other: 36 fixed helper chains + seeded random scripts of 1..7 defs (return sums of parameters, literals of the four type labels and calls of earlier / later / the same function with parameters or literals as arguments, arity 1..3) with top-level calls between and after the defs, through Lang/VariantCost.v (extracted) and the real parser under a wrapper around _parse_function: the ordered sequence (function, forced signature) must be equal, and no pair may occur twice; 37 depth families of helpers calling each other (see technique) at depth 3, 6, 12, 24 (thorough: .. 96): a family is not prompt when the time more than quintuples over each of the last two doublings AND exceeds 200 x (its own time at depth 3, at most the median family, at least 5 ms) x depth / 3, twice (the second time alone in a new process); the replay carries the series with the body-parse and block-parse counts. 4 (state): sessions - per literal text (lists with duplicates, nested, computed, tuples, strings, numbers) reader scripts (len, flash_pattern, glyph, index, loop bound, f-string) and mutator scripts (append / remove / += / item store / rebinding / aliases / inside if-while-for-def, under another variable name), transpiled in ONE process as readers, mutators, readers, shuffled mutators, mutators again, readers - every output must equal the script's output alone in a new process (sha256 / exception kind); on a difference every earlier script is tried as single predecessor: the replay is the two-script session; module-level objects of the three modules are digested before / after every parse (a change breaks the tie of Lang/FoldSession.v); random sessions of the model fragment through the extracted model vs the folded values read off the firmware.",
         "samples": [{"expr": hostile[0][0]}, {"script": scripts[0][1][len(HEADER):]}, {"script": scripts[len(pairs) // 2][1][len(HEADER):]}],
         "distribution": dict(sorted(stats.items())),
         "max_wall_s_per_script": max(walls) if walls else 0,
-        "guard": "F-C11-emit-stack-window: the boundary oracle (2b b) generates no rgb.on() / rgb.off() / motor.backward() / motor.invert() statement (they are in the correspondence 2b a, where the model predicts the one-level window); leading indentation (one blank per level, stripped before any pattern is applied) is not a white-space run in the sense of the next guard. F-C11-blank-run-cubic: no generated line holds a run of more than 100 white-space characters (longer white-space pumps are cut to 100). The regions the three repaired findings used to exclude are generated (towers / giant shifts / wide products as expressions, in every argument position and as multi-line chains; infinities, NaN and integers beyond the float range in every numeric argument; expressions of 150 .. 20000 levels); C11_fold_bits_bounded carries the modelling guard arith_only (no calls), the implementation-side size oracle covers every call-free expression",
-        "fixed_findings_replayed": sorted(FIXED_WITNESS),
+        "guard": "F-C11-emit-stack-window is repaired: no guard - rgb.on() / rgb.off() / motor.backward() / motor.invert() are generated in the correspondence (2b a) and in the boundary oracle (2b b: every slot around each of them, plus side statements); leading indentation (one blank per level, stripped before any pattern is applied) is not a white-space run in the sense of the next guard. F-C11-blank-run-cubic: no generated line holds a run of more than 100 white-space characters (longer white-space pumps are cut to 100). The regions the three repaired findings used to exclude are generated (towers / giant shifts / wide products as expressions, in every argument position and as multi-line chains; infinities, NaN and integers beyond the float range in every numeric argument; expressions of 150 .. 20000 levels); C11_fold_bits_bounded carries the modelling guard arith_only (no calls), the implementation-side size oracle covers every call-free expression",
+        "fixed_findings_replayed": sorted(list(FIXED_WITNESS) + ["F-C11-emit-stack-window"]),
         "regressed": sorted(regressed),
         "max_const_bits": max_bits,
         "unmodelled": ["the Python process executing parser.py / emitter.py (string building, the hand-written scanners): observed by audit hook + canaries + exception kinds + timing, support only - not proved; of the regex engine only the number of backtracking paths of the textbook search is modelled (sets restricted to ASCII + a flag, anchors and the one-character look-behind as empty matches) - the engine's own optimisations, its cost per path and non-regex loops are measured (pumps, scale families), not proved",
                        "of the def / call machinery only the memo in front of _parse_function and the one-return-sum fragment are modelled (the number of body parses is the cost; the cost of one body parse, statements other than return, annotations, redefinition of a name, keyword / default arguments, list-typed parameters are measured by the depth families, not proved)", "[paths] counts the successes of a (sub)pattern; the theorem bounds every flat sub-pattern, the total work of a failing match is a sum of such counts over prefixes (not stated as one theorem)",
-                       "CPython's int->str digit limit; the C-level recursion limit of ast.parse (deep EXPRESSIONS: observed on the deep stream and in 2b c, not modelled); of the Python-level recursion limit the frames per block slot / header / simple statement are modelled with measured constants for 61 statement shapes (other statements: boundary oracle only); parse() may accept with fewer frames than its deepest frame when a RecursionError is swallowed by a try / except Exception inside a statement recogniser (counted in distribution) - the model's acceptance need <= room is a lower bound of the real one, the boundary oracle searches the real one; time of deep ladders (text quadratic, parse time cubic in the depth: 48 s at 990 levels) is not judged", "IEEE infinities / NaN and the binary64 range (the model's floats are exact rationals): int(inf) / float(<huge int>) at the folding call sites fall back to the run-time expression - observed on the infinity stream in every numeric position, not modelled", "growth of folded strings across lines (s = s + s repeated: 2^n characters after n lines; ends in a caught MemoryError and the run-time expression, about 10 s under an 8 GB limit) - outside the three repaired findings, not generated", "target() reading the file (C12)", "ast.literal_eval fallbacks (flash_pattern, ultrasonic model): exercised by the hostile scripts, not modelled",
+                       "CPython's int->str digit limit; the C-level recursion limit of ast.parse (deep EXPRESSIONS: observed on the deep stream and in 2b c, not modelled); of the Python-level recursion limit the frames per block slot / header / simple statement are modelled with measured constants for 61 statement shapes (other statements: boundary oracle only); parse() may accept with fewer frames than its deepest frame when a RecursionError is swallowed by a try / except Exception inside a statement recogniser (counted in distribution) - the model's acceptance need <= room is a lower bound of the real one, the boundary oracle searches the real one; time of deep ladders (text quadratic, parse time cubic in the depth: 48 s at 990 levels) is not judged; `room` is the number of frames left when a stage is entered: a caller with no frame left at all cannot call parse() / emit() (the RecursionError is then raised in the caller's own frame, not by the transpiler) - rooms below the prelude's need only occur in the model; the MemoryError half of the two wrappers is not exercised", "IEEE infinities / NaN and the binary64 range (the model's floats are exact rationals): int(inf) / float(<huge int>) at the folding call sites fall back to the run-time expression - observed on the infinity stream in every numeric position, not modelled", "growth of folded strings across lines (s = s + s repeated: 2^n characters after n lines; ends in a caught MemoryError and the run-time expression, about 10 s under an 8 GB limit) - outside the three repaired findings, not generated", "target() reading the file (C12)", "ast.literal_eval fallbacks (flash_pattern, ultrasonic model): exercised by the hostile scripts, not modelled",
                        "environment reads (os.environ) have no audit event: only the canary / builtins profile would show them inside _eval_const"],
         "trusted_base": C.COMMON_TRUSTED + ["harness/gen/safecasts.py (operator / cast / safe-name tables of parser.py)", "harness/gen/regexes.py (walks the ast of parser.py / emitter.py / ast.py / __init__.py / pio.py for re.* calls, evaluates the pattern expressions, cross-checks with the compiled module-level objects, lowers CPython's re._parser parse; fail-closed)", "harness/gen/setsites.py (module-level state inventory, shared with C10)", "harness/gen/nestdepth.py + harness/c11_nest.py (sys.setprofile frame counting of the real parse() / emit() on ladders, linear fit re-checked on six further ladders, fail-closed; sys.setrecursionlimit relative to the calling frame as the definition of `room`)", "the recording wrappers around parser._parse_function / _parse_simple_lines (module attributes, resolved at call time) as the observation of body parses", "wall-clock time of the implementation runner as the observation of 'promptly' (relative to the median of the same stream, confirmed in a second process)",
                                             "CPython audit events and sys.setprofile c_call events as the observation of 'access' and 'call' (support part)"],
